@@ -173,7 +173,7 @@ def check_event_ids(eng, ctx):
                     if not cm.is_self_attr(fields.get('stream_id'),
                                            'stream_id'):
                         bad.append('%s.stream_id is %s' % (
-                            cls, T.show(fields.get('stream_id', T.NONE))))
+                            cls, cm.show0(fields.get('stream_id', T.NONE))))
                 if cls == 'PushedStreamReceived' and \
                         not cm.is_self_attr(fields.get('parent_stream_id'),
                                             'stream_id'):
@@ -247,11 +247,11 @@ def check_role_of_creation(eng, ctx):
                     if e2 is e:
                         break
                     if e2.kind == 'assume':
-                        s = T.show(e2.cond)
+                        s = cm.show0(e2.cond)
                         if s == 'not self.config.client_side':
                             gated = True
                         if e2.cond[0] == 'in' and \
-                                'self.streams' in T.show(e2.cond[2]):
+                                'self.streams' in cm.show0(e2.cond[2]):
                             gated = True
                 if not gated:
                     bad = True
@@ -265,7 +265,7 @@ def check_role_of_creation(eng, ctx):
     for p in eng.I.run(fi):
         for e in cm.calls_to(p, '_get_or_create_stream'):
             if len(e.args) >= 2 and \
-                    T.show(e.args[1]) in (
+                    cm.show0(e.args[1]) in (
                         'enum:AllowedStreamIDs(not self.config.client_side)',):
                 ok = True
     ctx.ob('FLOW.parity', fi.qual, 'inbound streams use the peer parity', ok,
